@@ -927,6 +927,8 @@ class LTLayoutContainer(LTContainer[LTComponent]):
                     return (1, -box.y0, box.x0)
 
             textboxes.sort(key=getkey)
+            for index, textbox in enumerate(textboxes):
+                textbox.index = index
         else:
             self.groups = self.group_textboxes(laparams, textboxes)
             assigner = IndexAssigner()
